@@ -50,14 +50,18 @@ def showOutcome (o : Outcome Text) : String :=
   | .err k => "E:" ++ k
   | .panic _ => "PANIC"
 
-/-- parse `L:<text>` / `F:<var>:<s>:<e>:<i|x>` … `E` tokens; returns the blocks and the remaining tokens -/
+/-- parse `L:<text>` / `F:<var>:<s>:<e>:<i|x>` … `E` tokens; a line without a visible first
+character continues the declaration before it. Returns the blocks and the remaining tokens -/
 def parseBlocks : Nat → List String → Option (List Block × List String)
   | 0, _ => none
   | _ + 1, [] => some ([], [])
   | fuel + 1, tok :: rest =>
     if tok == "E" then some ([], tok :: rest)
     else if tok.startsWith "L:" then
-      (parseBlocks fuel rest).map fun (bs, r) => (.line (dec (tok.drop 2).toString.toList) :: bs, r)
+      let first := dec (tok.drop 2).toString.toList
+      let isCont (w : String) : Bool := w.startsWith "L:" && !headOk (dec (w.drop 2).toString.toList)
+      let conts := (rest.takeWhile isCont).map fun w => dec (w.drop 2).toString.toList
+      (parseBlocks fuel (rest.dropWhile isCont)).map fun (bs, r) => (.decl first conts :: bs, r)
     else if tok.startsWith "F:" then
       match (tok.drop 2).toString.splitOn ":" with
       | [v, s, e, i] =>
@@ -90,9 +94,9 @@ def stepH (ws : List String) (impl : String) : String :=
           if mOut != out then s!"DIFF model={mOut}"
           else if wellFormed unit bs then
             if out != handI then s!"JUDGE C42 expansion of a well-formed loop block differs from the hand-written copies: {out}"
-            else if ast.startsWith "eq" || ast == "err-both" then "ok"
+            else if ast.startsWith "eq" || ast == "err-both" then "ok well-formed"
             else s!"JUDGE C42 parse(loop program) and parse(hand-expanded program) differ: ast={ast}"
-          else "ok"
+          else "ok not-well-formed (mirror only)"
       | _, _, _, _ => "BADLINE fields"
     | _, _ => "BADLINE blocks"
   | [] => "BADLINE"
